@@ -40,11 +40,95 @@ def bit_is_const(b):
     return b == 0 or b == 1
 
 
+# ---- boolean functions of a few option atoms, as truth tables:  ('f', mask)  over the universe set up by tt_setup()
+TT = {"n": 0, "all": 0, "names": ()}
+
+
+def tt_setup(names):
+    """declare the option atoms; -> their bits.  Bit `a` of a mask is the function's value under assignment a (atom i = bit i of a)."""
+    n = len(names)
+    TT["n"], TT["names"] = n, tuple(names)
+    TT["all"] = (1 << (1 << n)) - 1
+    atoms = []
+    for i in range(n):
+        block = ((1 << (1 << i)) - 1) << (1 << i)          # 2^i zeros then 2^i ones
+        period = 1 << (i + 1)
+        m = 0
+        reps = (1 << n) // period
+        unit = block
+        # repeat the 2^(i+1)-bit pattern `reps` times
+        m = unit
+        width = period
+        while width < (1 << n):
+            m |= m << width
+            width *= 2
+        atoms.append(("f", m & TT["all"]))
+    return atoms
+
+
+def _is_f(b):
+    return isinstance(b, tuple) and len(b) == 2 and b[0] == "f"
+
+
+def _fmask(b):
+    if b == 0:
+        return 0
+    if b == 1:
+        return TT["all"]
+    if _is_f(b):
+        return b[1]
+    return None
+
+
+def _fnorm(m):
+    if m == 0:
+        return 0
+    if m == TT["all"]:
+        return 1
+    return ("f", m)
+
+
+def tt_support(b):
+    """names of the atoms a truth-table bit really depends on"""
+    if not _is_f(b):
+        return ()
+    out = []
+    m = b[1]
+    n = TT["n"]
+    for i in range(n):
+        # compare cofactors: shift by 2^i and mask the positions where atom i = 0
+        sh = 1 << i
+        lowmask = 0
+        unit = (1 << sh) - 1
+        width = sh * 2
+        lowmask = unit
+        while width < (1 << n):
+            lowmask |= lowmask << width
+            width *= 2
+        lowmask &= TT["all"]
+        if ((m >> sh) ^ m) & lowmask:
+            out.append(TT["names"][i])
+    return tuple(out)
+
+
+def bit_mux(c, p, x, y):
+    """x if (c == p) else y, for truth-table / constant bits; None if not representable"""
+    mc, mx, my = _fmask(c), _fmask(x), _fmask(y)
+    if mc is None or mx is None or my is None:
+        return None
+    if not p:
+        mc = TT["all"] ^ mc
+    return _fnorm((mc & mx) | ((TT["all"] ^ mc) & my))
+
+
 def bit_xor(a, b):
     if a == TBIT or b == TBIT:
         return TBIT
     if bit_is_const(a) and bit_is_const(b):
         return a ^ b
+    if _is_f(a) or _is_f(b):
+        ma, mb = _fmask(a), _fmask(b)
+        return TBIT if ma is None or mb is None else _fnorm(ma ^ mb)
     sa, ca = _as_xor(a)
     sb, cb = _as_xor(b)
     s = sa ^ sb
@@ -73,6 +157,8 @@ def bit_and(a, b):
         return b
     if b == 1:
         return a
+    if _is_f(a) and _is_f(b):
+        return _fnorm(a[1] & b[1])
     if a == b and a != TBIT:
         return a
     return TBIT
@@ -85,6 +171,8 @@ def bit_or(a, b):
         return b
     if b == 0:
         return a
+    if _is_f(a) and _is_f(b):
+        return _fnorm(a[1] | b[1])
     if a == b and a != TBIT:
         return a
     return TBIT
@@ -99,6 +187,8 @@ def bit_not(a):
 def bit_deps(b):
     if bit_is_const(b) or b == TBIT:
         return frozenset()
+    if _is_f(b):
+        return frozenset(("opt", n) for n in tt_support(b))
     if b[0] == "b":
         return frozenset([b[1]])
     return b[1]
